@@ -89,13 +89,24 @@ def analyse_game(prop, sc, rewards, acc, thresholds=()):
     for prune in (True, False):
         slow = is_slow(sc, rewards)
         if stopping and prop == "C06":
-            gr = J.GameRun(sc, rewards, prune, confirm=True,
-                           outcome=Rn.solve(sc.game(rewards), prune, cpu_s=60.0, max_lines=400_000_000) if slow else None)
+            first = Rn.solve(sc.game(rewards), prune, cpu_s=10.0 if slow else 1.0, confirm=False)
+            if first.kind == "timeout":
+                pre = J.explain_no_return(sc, rewards, prune)
+                if pre is not None:
+                    acc["executions"] += 1
+                    _count(acc, "outcomes", "no-return-explained")
+                    if pre[0].startswith("SKIP"):
+                        acc["too_slow_to_judge"] = acc.get("too_slow_to_judge", 0) + 1
+                    else:
+                        add_known([pre], {"prune": prune})
+                    continue
+                first = Rn.solve(sc.game(rewards), prune, cpu_s=30.0 if slow else 1.0, max_lines=60_000_000 if slow else 1_000_000)
+            gr = J.GameRun(sc, rewards, prune, confirm=True, outcome=first)
         elif stopping:
             # termination on stopping games is C06's verdict; the other properties only need the result, so a run that
             # does not come back within the alarm is counted (and ends the shard early if it keeps happening), never judged
             gr = J.GameRun(sc, rewards, prune, confirm=False,
-                           outcome=Rn.solve(sc.game(rewards), prune, cpu_s=60.0 if slow else STOP_CPU, confirm=False))
+                           outcome=Rn.solve(sc.game(rewards), prune, cpu_s=8.0 if slow else STOP_CPU, confirm=False))
             if gr.out.kind == "timeout":
                 acc["stopping_timeouts"] = acc.get("stopping_timeouts", 0) + 1
         else:
@@ -108,10 +119,12 @@ def analyse_game(prop, sc, rewards, acc, thresholds=()):
             acc["nonstopping_unjudged"] += 1
 
     if prop == "C06":
-        for prune, gr in runs.items():
+        for prune, gr in list(runs.items()):
             acc["judged"] += 1
             for f6 in J.judge_c06(sc, gr):
-                if f6[0].startswith("KF-"):
+                if f6[0].startswith("SKIP"):
+                    acc["too_slow_to_judge"] = acc.get("too_slow_to_judge", 0) + 1
+                elif f6[0].startswith("KF-"):
                     add_known([f6], {"prune": prune})
                 else:
                     add([f6], {"prune": prune})
@@ -126,7 +139,7 @@ def analyse_game(prop, sc, rewards, acc, thresholds=()):
             if gr.ok:
                 vectors.append(("solve() prune=%s" % prune, {"prune": prune}, gr.out.result[3], gr.out.result[1]))
         if seam_needed:
-            so = Rn.solve_reach_seam(sc.game(rewards), False, cpu_s=60.0 if slow else 1.0, max_lines=400_000_000 if slow else 1_000_000)
+            so = Rn.solve_reach_seam(sc.game(rewards), False, cpu_s=30.0 if slow else 1.0, max_lines=60_000_000 if slow else 1_000_000)
             acc["executions"] += 1
             if so.kind == "ok":
                 vectors.append(("Solver.solve_reachability", {"seam": True}, so.result[0], so.result[1]))
@@ -391,6 +404,8 @@ def _game_family(name, shard):
             _FAMILIES[key] = U.U_H_games()
         elif name == "U-J":
             _FAMILIES[key] = U.U_J_games()
+        elif name == "U-M":
+            _FAMILIES[key] = U.U_M_games()
         elif name == "U-SC":
             _FAMILIES[key] = U.U_SC_games((16, 32, 50, 64, 100, 128, 256) if shard.get("all_sizes") else (256,))
         elif name in ("U-E", "U-C", "U-L", "U-R", "U-P2", "U-N", "U-W", "U-Z", "U-G", "U-K"):
@@ -475,7 +490,7 @@ def run_plan(ctx, prop, parts, rule, assumptions, kf_what=None, vacuity=None):
            "max_error_over_tolerance": round(tot.get("max_ratio", 0.0), 4),
            "stopping_games_without_result_within_alarm": tot.get("stopping_timeouts", 0),
            "exhaustive": not truncated, "samples": tot.get("samples", [])[:6]}
-    for k in ("exact_states_judged", "exact_states_out_of_scope", "skipped_structures"):
+    for k in ("exact_states_judged", "exact_states_out_of_scope", "skipped_structures", "too_slow_to_judge"):
         if k in tot:
             cov[k] = tot[k]
     if tot.get("stopping_timeouts", 0):
